@@ -21,7 +21,7 @@ func c12Set(ctx *core.Ctx, i int, fs gen.FileSet, thorough bool) {
 		model string
 	}
 	var results []permRes
-	orders := perms(len(fs.Files))
+	orders := fileOrders(len(fs.Files))
 	for _, order := range orders {
 		cs := &mergeCase{Tag: fs.Tag, Files: fs.Files, Order: order, Schema: sv}
 		var first *mergeObs
